@@ -1,0 +1,381 @@
+// Verification hooks for the request-response protocol (cfg(feature = "verif") only, adds code
+// only): a wrapper that owns a real `RequestResponseProtocol` over a real `TransportService`,
+// lets an external harness inject `InnerTransportEvent`s, hands out scripted connections
+// (the receiving end of the `ProtocolCommand` channel), runs ONE iteration of the event loop
+// without blocking and dumps the private bookkeeping.
+
+use super::*;
+use crate::{
+    codec::ProtocolCodec,
+    protocol::{
+        connection::ConnectionHandle, InnerTransportEvent, Permit, ProtocolCommand,
+        SubstreamKeepAlive,
+    },
+    substream::VerifIo,
+    transport::{
+        manager::{SupportedTransport, TransportManager, TransportManagerBuilder},
+        Endpoint,
+    },
+    types::ConnectionId,
+};
+
+use multiaddr::Multiaddr;
+use tokio::sync::mpsc::{channel, error::TryRecvError};
+
+/// Which `select!` arm of the event loop fired in [`VerifProtocol::step`].
+#[derive(Debug, Clone, Copy, PartialEq, Eq)]
+pub enum VerifStep {
+    /// Nothing was ready.
+    Idle,
+    /// A transport service event was handled.
+    Service,
+    /// An outbound request future finished.
+    RequestDone,
+    /// A response (or rejection) future finished.
+    ResponseDone,
+    /// An inbound request was read from its substream.
+    InboundRead,
+    /// A user command was handled.
+    Command,
+    /// The loop would have exited.
+    Exit,
+}
+
+/// Sorted copy of the private bookkeeping of [`RequestResponseProtocol`].
+#[derive(Debug, Default, Clone, PartialEq, Eq)]
+pub struct VerifDump {
+    /// `peers`: peer, sorted active request ids, sorted active inbound request ids.
+    pub peers: Vec<(PeerId, Vec<usize>, Vec<usize>)>,
+    /// `pending_dials`: peer and the request ids waiting for it, in arrival order.
+    pub pending_dials: Vec<(PeerId, Vec<usize>)>,
+    /// `pending_outbound`: substream id, peer, request id.
+    pub pending_outbound: Vec<(usize, PeerId, usize)>,
+    /// `pending_outbound_cancels` keys.
+    pub cancels: Vec<usize>,
+    /// `pending_inbound.len()` (in-flight outbound request futures).
+    pub request_futures: usize,
+    /// `pending_inbound_requests.len()`.
+    pub inbound_reading: usize,
+    /// `pending_outbound_responses.len()`.
+    pub inbound_responding: usize,
+}
+
+/// Lets [`VerifProtocol::dump`] read `pending_dials` whether it holds one request per peer or a
+/// list of them.
+trait VerifRequestIds {
+    fn verif_request_ids(&self) -> Vec<usize>;
+}
+
+impl VerifRequestIds for RequestContext {
+    fn verif_request_ids(&self) -> Vec<usize> {
+        vec![self.request_id.verif_as_usize()]
+    }
+}
+
+impl VerifRequestIds for Vec<RequestContext> {
+    fn verif_request_ids(&self) -> Vec<usize> {
+        self.iter().map(|context| context.request_id.verif_as_usize()).collect()
+    }
+}
+
+struct VerifConnection {
+    id: ConnectionId,
+    tx: Sender<ProtocolCommand>,
+    rx: Option<Receiver<ProtocolCommand>>,
+}
+
+/// See the module comment.
+pub struct VerifProtocol {
+    inner: RequestResponseProtocol,
+    _manager: TransportManager,
+    tx: Sender<InnerTransportEvent>,
+    connections: HashMap<PeerId, VerifConnection>,
+    permits: HashMap<usize, Permit>,
+    next_connection: usize,
+    codec: ProtocolCodec,
+    protocol: ProtocolName,
+}
+
+impl VerifProtocol {
+    /// Build the protocol. `dialable` peers get a known address so that `dial()` is accepted.
+    pub fn new(
+        max_size: usize,
+        timeout: Option<Duration>,
+        max_inbound: Option<usize>,
+        dialable: &[PeerId],
+    ) -> (Self, RequestResponseHandle) {
+        let manager = TransportManagerBuilder::new().build();
+        let mut handle = manager.transport_manager_handle();
+        handle.register_transport(SupportedTransport::Tcp);
+        for (i, peer) in dialable.iter().enumerate() {
+            let address: Multiaddr = format!("/ip4/10.0.0.{}/tcp/{}", i + 1, 1000 + i)
+                .parse::<Multiaddr>()
+                .expect("valid address")
+                .with(multiaddr::Protocol::P2p((*peer).into()));
+            handle.add_known_address(peer, std::iter::once(address));
+        }
+
+        let protocol = ProtocolName::from("/verif/req/1");
+        let (service, tx) = TransportService::new(
+            PeerId::random(),
+            protocol.clone(),
+            Vec::new(),
+            Arc::new(Default::default()),
+            handle,
+            Duration::from_secs(1_000_000_000),
+            SubstreamKeepAlive::Yes,
+        );
+        let mut builder = ConfigBuilder::new(protocol.clone()).with_max_size(max_size);
+        if let Some(timeout) = timeout {
+            builder = builder.with_timeout(timeout);
+        }
+        if let Some(max) = max_inbound {
+            builder = builder.with_max_concurrent_inbound_requests(max);
+        }
+        let (config, rr_handle) = builder.build();
+        let codec = config.codec;
+
+        (
+            Self {
+                inner: RequestResponseProtocol::new(service, config),
+                _manager: manager,
+                tx,
+                connections: HashMap::new(),
+                permits: HashMap::new(),
+                next_connection: 0usize,
+                codec,
+                protocol,
+            },
+            rr_handle,
+        )
+    }
+
+    /// Report a new connection to `peer` (the harness keeps the connection's command channel).
+    pub fn inject_connection_established(&mut self, peer: PeerId) {
+        let id = ConnectionId::from(self.next_connection);
+        self.next_connection += 1;
+        let (tx, rx) = channel(4096);
+        let sender = ConnectionHandle::new(id, tx.clone());
+        self.connections.insert(
+            peer,
+            VerifConnection {
+                id,
+                tx,
+                rx: Some(rx),
+            },
+        );
+        let address: Multiaddr = "/ip4/10.9.9.9/tcp/9999".parse().expect("valid address");
+        self.tx
+            .try_send(InnerTransportEvent::ConnectionEstablished {
+                peer,
+                connection: id,
+                endpoint: Endpoint::dialer(address, id),
+                sender,
+            })
+            .expect("channel has room");
+    }
+
+    /// Report that the connection to `peer` was closed.
+    pub fn inject_connection_closed(&mut self, peer: PeerId) {
+        if let Some(connection) = self.connections.remove(&peer) {
+            self.tx
+                .try_send(InnerTransportEvent::ConnectionClosed {
+                    peer,
+                    connection: connection.id,
+                })
+                .expect("channel has room");
+        }
+    }
+
+    /// Report a dial failure for `peer`.
+    pub fn inject_dial_failure(&mut self, peer: PeerId) {
+        self.tx
+            .try_send(InnerTransportEvent::DialFailure {
+                peer,
+                addresses: Vec::new(),
+            })
+            .expect("channel has room");
+    }
+
+    /// Make every later `open_substream(peer)` fail: the connection stops reading commands.
+    pub fn break_connection(&mut self, peer: PeerId) {
+        if let Some(connection) = self.connections.get_mut(&peer) {
+            connection.rx = None;
+        }
+    }
+
+    /// Substream ids the protocol asked the connection of `peer` to open since the last call.
+    pub fn take_open_requests(&mut self, peer: PeerId) -> Vec<usize> {
+        let mut out = Vec::new();
+        if let Some(VerifConnection { rx: Some(rx), .. }) = self.connections.get_mut(&peer) {
+            loop {
+                match rx.try_recv() {
+                    Ok(ProtocolCommand::OpenSubstream {
+                        substream_id,
+                        permit,
+                        ..
+                    }) => {
+                        self.permits.insert(substream_id.verif_as_usize(), permit);
+                        out.push(substream_id.verif_as_usize());
+                    }
+                    Ok(ProtocolCommand::ForceClose) => {}
+                    Err(TryRecvError::Empty) | Err(TryRecvError::Disconnected) => break,
+                }
+            }
+        }
+        out
+    }
+
+    /// Report an opened substream over `io`; `outbound` carries the substream id being answered.
+    /// Returns `false` if `peer` has no scripted connection.
+    pub fn inject_substream_opened(
+        &mut self,
+        peer: PeerId,
+        outbound: Option<usize>,
+        io: Box<dyn VerifIo>,
+    ) -> bool {
+        let Some(connection) = self.connections.get(&peer) else {
+            return false;
+        };
+        let (direction, id, opening_permit) = match outbound {
+            Some(id) => (
+                Direction::Outbound(SubstreamId::from(id)),
+                id,
+                self.permits.remove(&id).unwrap_or_else(|| Permit::new(connection.tx.clone())),
+            ),
+            None => (Direction::Inbound, 0usize, Permit::new(connection.tx.clone())),
+        };
+        self.tx
+            .try_send(InnerTransportEvent::SubstreamOpened {
+                peer,
+                protocol: self.protocol.clone(),
+                fallback: None,
+                direction,
+                connection_id: connection.id,
+                substream: Substream::verif_new(
+                    peer,
+                    SubstreamId::from(id),
+                    io,
+                    self.codec.clone(),
+                ),
+                opening_permit,
+            })
+            .expect("channel has room");
+        true
+    }
+
+    /// Report that opening substream `id` failed (`unsupported` selects the multistream failure).
+    pub fn inject_substream_open_failure(&mut self, id: usize, unsupported: bool) {
+        self.permits.remove(&id);
+        let error = if unsupported {
+            SubstreamError::NegotiationError(NegotiationError::MultistreamSelectError(
+                MultistreamFailed,
+            ))
+        } else {
+            SubstreamError::ConnectionClosed
+        };
+        self.tx
+            .try_send(InnerTransportEvent::SubstreamOpenFailure {
+                substream: SubstreamId::from(id),
+                error,
+            })
+            .expect("channel has room");
+    }
+
+    /// One iteration of the event loop of [`RequestResponseProtocol::run`], with the same arms in
+    /// the same (biased) order, plus a last arm that returns when nothing is ready.
+    pub async fn step(&mut self) -> VerifStep {
+        let this = &mut self.inner;
+        tokio::select! {
+            biased;
+
+            event = this.service.next() => match event {
+                Some(event) => {
+                    this.handle_service_event(event).await;
+                    VerifStep::Service
+                }
+                None => VerifStep::Exit,
+            },
+
+            event = this.pending_inbound.select_next_some(), if !this.pending_inbound.is_empty() => {
+                let (peer, request_id, fallback, event) = event;
+                let _ = this.on_substream_event(peer, request_id, fallback, event).await;
+                this.pending_outbound_cancels.remove(&request_id);
+                VerifStep::RequestDone
+            }
+
+            _ = this.pending_outbound_responses.next(), if !this.pending_outbound_responses.is_empty() => {
+                VerifStep::ResponseDone
+            }
+
+            event = this.pending_inbound_requests.next(), if !this.pending_inbound_requests.is_empty() => match event {
+                Some((peer, request_id, request, substream)) => {
+                    let _ = this.on_inbound_request(peer, request_id, request, substream).await;
+                    VerifStep::InboundRead
+                }
+                None => VerifStep::Exit,
+            },
+
+            command = this.command_rx.recv() => match command {
+                Some(command) => {
+                    this.handle_user_command(command).await;
+                    VerifStep::Command
+                }
+                None => VerifStep::Exit,
+            },
+
+            _ = std::future::ready(()) => VerifStep::Idle,
+        }
+    }
+
+    /// Sorted copy of the bookkeeping.
+    pub fn dump(&self) -> VerifDump {
+        let this = &self.inner;
+        let key = |peer: &PeerId| peer.to_bytes();
+        let mut peers: Vec<_> = this
+            .peers
+            .iter()
+            .map(|(peer, context)| {
+                let mut active: Vec<usize> =
+                    context.active.iter().map(|id| id.verif_as_usize()).collect();
+                let mut inbound: Vec<usize> =
+                    context.active_inbound.keys().map(|id| id.verif_as_usize()).collect();
+                active.sort();
+                inbound.sort();
+                (*peer, active, inbound)
+            })
+            .collect();
+        peers.sort_by_key(|(peer, _, _)| key(peer));
+        let mut pending_dials: Vec<_> = this
+            .pending_dials
+            .iter()
+            .map(|(peer, contexts)| (*peer, contexts.verif_request_ids()))
+            .collect();
+        pending_dials.sort_by_key(|(peer, _): &(PeerId, Vec<usize>)| key(peer));
+        let mut pending_outbound: Vec<_> = this
+            .pending_outbound
+            .iter()
+            .map(|(id, context)| {
+                (
+                    id.verif_as_usize(),
+                    context.peer,
+                    context.request_id.verif_as_usize(),
+                )
+            })
+            .collect();
+        pending_outbound.sort_by_key(|(id, _, _)| *id);
+        let mut cancels: Vec<usize> =
+            this.pending_outbound_cancels.keys().map(|id| id.verif_as_usize()).collect();
+        cancels.sort();
+
+        VerifDump {
+            peers,
+            pending_dials,
+            pending_outbound,
+            cancels,
+            request_futures: this.pending_inbound.len(),
+            inbound_reading: this.pending_inbound_requests.len(),
+            inbound_responding: this.pending_outbound_responses.len(),
+        }
+    }
+}
